@@ -90,6 +90,16 @@ def spec_verdict(pw, names, common, dict_):
 def run(chk):
     thorough = chk.tier == "thorough"
     ok, out = vlib.standard_proof_stage(chk, "C20", THEOREMS)
+    # further statement files Properties/C20?.v (C20F: the body of ReasonablePassword
+    # translated from the Go AST = the specified cascade; C20G: = Model/Password.v)
+    from checks import hist_common
+    for sfx in hist_common.extra_suffixes("C20"):
+        kok, kout = vlib.standard_proof_stage(chk, "C20" + sfx, hist_common.theorem_names("C20" + sfx))
+        ok, out = ok and kok, out + kout
+        if thorough and kok:
+            cok, csum = vlib.coqchk("C20" + sfx)
+            chk.oblige("coqchk re-checks the .vo closure of Properties/C20%s with no axioms" % sfx, cok)
+            ok = ok and cok
     proof_ok = ok
     binary, blog = vlib.build_harness()
     chk.oblige("harness builds against the current tree", binary is not None)
